@@ -1,17 +1,38 @@
 /-
   C12 - the interpreting encoder against the JIT encoder.
 
-  At model level both back ends are specified by the one function `Enc.encode` (their equality there
-  is definitional and is NOT offered as a theorem).  The compiler-correctness theorem that would
-  carry the property - `exec (compile T) = Enc.encode` for the shared encoder IR, with the VM as
-  `exec` - belongs to the encoder-IR work package and is absent here: C12 is therefore tied to the
-  code only by the differential run of vlib/props/C12.py (same case streams through a JIT worker and
-  a SONIC_ENCODER_USE_VM=1 worker, byte-identical output or both errors).
+  ONE IR, ONE SEMANTICS.  Both back ends - the x86 assembler (internal/encoder/x86) and the interpreter
+  (internal/encoder/vm) - consume the SAME program, the one `Compiler.Compile` (internal/encoder/compiler.go) emits
+  for a type.  The model has that program (`Ir.compile`, Model/IrCompile.lean, pinned to the real compiler by the
+  exact disassembly comparison of vlib/props/C12.py `irdis`) and ONE meaning of it (`Ir.run`, Model/IrExec.lean, a
+  transliteration of vm.go `Execute` over an abstract machine).  The model-level statement of C12 is therefore
 
-  What IS proved here concerns the leaf formatters on which the two back ends can differ: the JIT
-  calls native routines, the interpreter calls Go functions of internal/encoder/alg.  The Go
-  fallbacks of spec_compat.go (compiled in where no native routine exists) are transliterated in
-  Model/EncCompat.lean and shown equal to the specification's formatting functions:
+      exec (compile T) v  =  Enc.encode T v          (`exec_compile_eq_encode_partial` below)
+
+  - what the shared IR computes is the specification's text, which is the same function for either back end.  That
+  the JIT gives the IR the same meaning as the interpreter is NOT proved (the assembler's instruction templates are
+  outside the model): it is tied by the differential run (JIT worker vs. SONIC_ENCODER_USE_VM=1 worker vs. the model's
+  `exec`, same cases).
+
+  Encoder-IR theorems (Model/Ir*.lean, Proofs/Ir*.lean):
+
+  * `exec_compile_eq_encode_partial`  compiler correctness on the sub-universe `Ir.Sub` (bool, integers, floats, string,
+        json.Number, []byte, pointers, slices, arrays, string-keyed maps sorted or in iteration order, structs with
+        tags / omitempty / omitzero / `,string` on non-strings, inline or through OP_recurse) for values `Ir.Conf`
+        (inhabitants; no -0.0 under omitempty) whose type needs at most MaxStack states.  PARTIAL: interface{}
+        (OP_eface is in the machine, not in the theorem), named types / callbacks (outside the model), other key
+        kinds, option EncOnlyOmitNull.
+  * `exec_compile_eq_encode_fails`    the FULL statement (all types, values, options) is false on the faithful model:
+        witnesses are the two known deviations of the compiler from encoding/json, replayed on the real code by the
+        C03 check (known findings C03-omitempty-negative-zero, C03-string-opt-inner-literal)
+  * `stack_balanced`                  a value's program returns with exactly the state stack it was given (save/drop discipline)
+  * `too_deep_is_error`               OP_save on a full stack is ERR_too_deep; no instruction and no run lets the stack
+        exceed MaxStack (the array of vars.Stack is never indexed out of bounds)
+  * `inline_depth_irrelevant`         MaxInlineDepth (inline struct body vs. OP_recurse into the struct's own program)
+        does not change the result, for all depths >= 1
+
+  Leaf level (unchanged): the Go fallbacks of spec_compat.go (compiled in where no native routine exists) are
+  transliterated in Model/EncCompat.lean and shown equal to the specification's formatting functions:
 
   * `i64toa_eq_spec`       strconv.AppendInt's two-digits-per-step loop writes `Enc.intDec`
   * `quote_compat_eq_spec` spec_compat.go `Quote` writes, piece by piece, a literal that differs from
@@ -20,6 +41,7 @@
 -/
 import SonicSpec.Proofs.EncCompat
 import SonicSpec.Proofs.EncCompatInt
+import SonicSpec.Proofs.IrCorrect
 namespace SonicSpec.Props.C12
 open SonicSpec SonicSpec.Enc
 
@@ -74,5 +96,135 @@ example : Compat.i64toa 1234567 = ascii "1234567" := by decide +kernel
 /-- control characters as \u00XX, the short escapes, U+2028 always escaped, ill-formed bytes copied -/
 example : Compat.quote [8, 10, 34, 226, 128, 168, 255, 60] =
     ascii "\"\\u0008\\n\\\"\\u2028" ++ [255, 60, 34] := by decide +kernel
+
+
+/-! ## the encoder IR -/
+
+open SonicSpec.Go SonicSpec.Ir
+
+/-- COMPILER CORRECTNESS (C03 deep part = the model-level statement of C12).  For every type of the sub-universe,
+    every `pv`, every option set, every MaxInlineDepth >= 1 and every value of the type: interpreting the compiled
+    program gives exactly the specification's text, or exactly the specification's error. -/
+theorem exec_compile_eq_encode_partial (o : EncOpts) (co : COpts) (T : GoType) (pv : Bool) (v : GoVal)
+    (hnull : co.encOnlyOmitNull = false) (hco : 0 < co.maxInlineDepth)
+    (hS : Sub T = true) (hC : Conf T v = true) (hroom : need T ≤ maxStack) :
+    exec o co (compile co T pv) v = liftE (Enc.encode o T v) := by
+  obtain ⟨n, hn⟩ := compile_run (o := o) hnull hco hS hC pv false [] [] (by simpa using hroom)
+  apply exec_eq_of_fuel (n := n)
+  unfold execFuel
+  rw [hn]
+  unfold Enc.encode Enc.encodeJ
+  cases encV o false T v <;> simp [liftE, Except.map]
+
+/-- the FULL statement: every type and value of the model's universe, every option set -/
+def ExecCompileEqEncode : Prop :=
+  ∀ (o : EncOpts) (co : COpts) (T : GoType) (pv : Bool) (v : GoVal), exec o co (compile co T pv) v = liftE (Enc.encode o T v)
+
+def tNegZero : GoType := .st [("A", some (ascii "a,omitempty"), .f64)]
+def vNegZero : GoVal := .st [.f64 0x8000000000000000]
+def tStrOpt : GoType := .st [("S", some (ascii ",string"), .str)]
+def vStrOpt : GoVal := .st [.str (ascii "<")]
+
+/-- `omitempty` on a float holding -0.0: the compiled test looks at the bit pattern (OP_is_zero_8) and the member is
+    written, encoding/json (`isEmptyValue`) omits it.  Known finding C03-omitempty-negative-zero. -/
+theorem negzero_omitempty_deviates :
+    exec {} {} (compile {} tNegZero false) vNegZero = .ok (ascii "{\"a\":-0}") ∧ Enc.encode {} tNegZero vNegZero = .ok (ascii "{}") := by
+  refine ⟨exec_eq_of_fuel (n := 40) ?_, ?_⟩
+  · decide +kernel
+  · decide +kernel
+
+/-- `,string` on a string under EscapeHTML: OP_quote double-quotes first and the HTML pass runs over the outer literal;
+    encoding/json escapes the inner literal first.  Known finding C03-string-opt-inner-literal. -/
+theorem string_opt_deviates :
+    exec { escapeHTML := true } {} (compile {} tStrOpt false) vStrOpt = .ok (ascii "{\"S\":\"\\\"\\u003c\\\"\"}") ∧
+    Enc.encode { escapeHTML := true } tStrOpt vStrOpt = .ok (ascii "{\"S\":\"\\\"\\\\u003c\\\"\"}") := by
+  refine ⟨exec_eq_of_fuel (n := 40) ?_, ?_⟩
+  · decide +kernel
+  · decide +kernel
+
+/-- the full statement does not hold for the faithful model (the two deviations above are in the real compiler) -/
+theorem exec_compile_eq_encode_fails : ¬ ExecCompileEqEncode := by
+  intro h
+  have h1 := h {} {} tNegZero false vNegZero
+  rw [negzero_omitempty_deviates.1, negzero_omitempty_deviates.2] at h1
+  simp only [liftE] at h1
+  injection h1 with h1
+  revert h1
+  decide
+
+/-- SAVE/DROP DISCIPLINE: the program of a value, started on any stack with room for it, returns with exactly that
+    stack - and the text it appended is the specification's -/
+theorem stack_balanced (o : EncOpts) (co : COpts) (T : GoType) (pv fpv : Bool) (v : GoVal) (s s' : Stack) (b b' : Bytes)
+    (hnull : co.encOnlyOmitNull = false) (hco : 0 < co.maxInlineDepth)
+    (hS : Sub T = true) (hC : Conf T v = true) (hroom : s.length + need T ≤ maxStack)
+    (h : Halts o co fpv (compile co T pv) 0 (Regs.start (.val v)) s b (.ok (s', b'))) :
+    s' = s ∧ ∃ j, encV o false T v = .ok j ∧ b' = b ++ Json.render j := by
+  have h2 := compile_run (o := o) hnull hco hS hC pv fpv s b hroom
+  have := Halts.unique h h2
+  cases hj : encV o false T v with
+  | error e => rw [hj] at this; cases this
+  | ok j =>
+    rw [hj] at this
+    simp only at this
+    injection this with this
+    injection this with h1 h2
+    exact ⟨h1, j, rfl, h2⟩
+
+/-- STACK LIMIT: (1) OP_save on a full stack is ERR_too_deep (vars/stack.go Push), whatever else the state is;
+    (2) no instruction takes a stack of at most MaxStack states beyond MaxStack; (3) neither does a whole run,
+    calls through OP_recurse / OP_eface included.  So `Stack.sb[MaxStack]` is never indexed out of bounds. -/
+theorem too_deep_is_error (o : EncOpts) (co : COpts) :
+    (∀ (enter : Bool) (pc : Nat) (r : Regs) (s : Stack) (b : Bytes), maxStack ≤ s.length →
+        step o (.save enter) pc r s b = .err .tooDeep) ∧
+    (∀ (ins : Instr) (pc : Nat) (r : Regs) (s : Stack) (b : Bytes) (pc' : Nat) (r' : Regs) (s' : Stack) (b' : Bytes),
+        s.length ≤ maxStack → step o ins pc r s b = .next pc' r' s' b' → s'.length ≤ maxStack) ∧
+    (∀ (n : Nat) (fpv : Bool) (P : Program) (pc : Nat) (r : Regs) (s : Stack) (b : Bytes) (s' : Stack) (b' : Bytes),
+        s.length ≤ maxStack → run o co n fpv P pc r s b = some (.ok (s', b')) → s'.length ≤ maxStack) := by
+  refine ⟨?_, fun ins pc r s b pc' r' s' b' hs h => step_stack_le hs h, run_stack_le⟩
+  intro enter pc r s b hs
+  simp only [step]
+  rw [if_pos hs]
+
+/-- a pointer met with the stack full: the run ends in ERR_too_deep (and `Enc.encode`, like encoding/json, has no such
+    limit - known finding C03-max-stack-depth) -/
+theorem too_deep_witness (o : EncOpts) (co : COpts) (t : GoType) (w : GoVal) (s : Stack) (hs : s.length = maxStack) :
+    Halts o co false (compile co (.ptr t) false) 0 (Regs.start (.val (.ptr w))) s [] (.error .tooDeep) := by
+  have hat : At (compile co (.ptr t) false) 0 (code co 0 0 false (.ptr t)) := At.whole _
+  rw [code] at hat
+  simp only [List.cons_append, List.nil_append] at hat
+  refine halts_step (hat.get 0 (by omega) rfl) (by simp only [step, Regs.start, Cur.get, jumpIf]; rfl) ?_
+  exact halts_err (hat.get 1 (by omega) rfl) (by simp only [step]; rw [if_pos (by omega)])
+
+/-- OUT-OF-LINE == INLINE: the result does not depend on MaxInlineDepth (all depths >= 1): a struct body compiled in
+    place and an OP_recurse into the struct's own program write the same text -/
+theorem inline_depth_irrelevant (o : EncOpts) (co₁ co₂ : COpts) (T : GoType) (pv₁ pv₂ : Bool) (v : GoVal)
+    (h₁ : co₁.encOnlyOmitNull = false) (h₂ : co₂.encOnlyOmitNull = false) (d₁ : 1 ≤ co₁.maxInlineDepth) (d₂ : 1 ≤ co₂.maxInlineDepth)
+    (hS : Sub T = true) (hC : Conf T v = true) (hroom : need T ≤ maxStack) :
+    exec o co₁ (compile co₁ T pv₁) v = exec o co₂ (compile co₂ T pv₂) v := by
+  rw [exec_compile_eq_encode_partial o co₁ T pv₁ v h₁ d₁ hS hC hroom, exec_compile_eq_encode_partial o co₂ T pv₂ v h₂ d₂ hS hC hroom]
+
+/-! ### non-vacuity -/
+
+def tDemo : GoType :=
+  .st [("A", some (ascii "a,omitempty"), .int 64), ("P", none, .ptr (.sl (.arr 2 .f64))),
+       ("M", some (ascii "m"), .map .str (.st [("X", some (ascii ",string"), .uint 8), ("Y", some (ascii "-"), .bool)])), ("N", some (ascii ",omitzero"), .num)]
+def vDemo : GoVal :=
+  .st [.int 0, .ptr (.sl [.arr [.f64 0x3ff8000000000000, .f64 0], .arr [.f64 0x4059000000000000, .f64 0xbff0000000000000]]),
+       .map [(.str (ascii "k2"), .st [.uint 7, .bool true]), (.str (ascii "k1"), .st [.uint 255, .bool false])], .num (ascii "1e3")]
+
+/-- the hypotheses of the theorem hold for a value that exercises every constructor of the sub-universe -/
+example : Sub tDemo = true ∧ Conf tDemo vDemo = true ∧ need tDemo ≤ maxStack := by decide +kernel
+/-- ... and the two sides of the equation on it (computed independently), sorted keys -/
+example : execFuel 400 { sortMapKeys := true } {} (compile {} tDemo false) vDemo =
+    some (.ok (ascii "{\"P\":[[1.5,0],[100,-1]],\"m\":{\"k1\":{\"X\":\"255\"},\"k2\":{\"X\":\"7\"}},\"N\":1e3}")) := by decide +kernel
+example : Enc.encode { sortMapKeys := true } tDemo vDemo =
+    .ok (ascii "{\"P\":[[1.5,0],[100,-1]],\"m\":{\"k1\":{\"X\":\"255\"},\"k2\":{\"X\":\"7\"}},\"N\":1e3}") := by decide +kernel
+/-- the same value with MaxInlineDepth 1: the nested struct is reached through OP_recurse -/
+example : ((compile { maxInlineDepth := 1 } tDemo false).any fun i => match i with | .recurse _ _ => true | _ => false) = true ∧
+    execFuel 400 { sortMapKeys := true } { maxInlineDepth := 1 } (compile { maxInlineDepth := 1 } tDemo false) vDemo =
+      execFuel 400 { sortMapKeys := true } {} (compile {} tDemo false) vDemo := by decide +kernel
+/-- a NaN is the specification's error on both sides -/
+example : execFuel 50 {} {} (compile {} (.sl .f64) false) (.sl [.f64 0, .f64 0x7ff8000000000001]) = some (.error (.enc .unsupportedValue)) ∧
+    Enc.encode {} (.sl .f64) (.sl [.f64 0, .f64 0x7ff8000000000001]) = .error .unsupportedValue := by decide +kernel
 
 end SonicSpec.Props.C12
